@@ -275,7 +275,37 @@ def check_case(rc, want_text=False):
     rw_shared = sorted({o[1] for e in m0.events for o in e.operands
                         if o[0] == "rw" and not o[5] and (o[1] in dup or len(stage_of.get(o[1], ())) > 1)})
 
+    known_region = None
+    if constructed and ((lb, step) != (0, 1)):
+        known_region = K_LB
+    elif constructed and trip < S - 1:
+        known_region = K_SHORT
+    memo = {}
+
+    def predicted():
+        """(stage op, operand tiles) multiset the two documented unroll-pipeline defects predict for this loop"""
+        if "p" not in memo:
+            sched = model_schedule(S, ub, step)
+            try:
+                mm, _ = execute(ref, built, Terms(), forced=sorted({v for (_s, v) in sched}))
+            except StepBudget:
+                raise Outside("step budget (model)")
+            per = {}
+            for e, v in zip(mm.events, mm.iter_of_event):
+                st_ = built.stage_tags.get(e.tag)
+                if st_ is not None and v is not None:
+                    per.setdefault((st_, v), []).append(e.cov_key())
+            pred = Counter()
+            for sv in sched:
+                pred.update(per.get(sv, []))
+            pred.update(e.cov_key() for e, v in zip(mm.events, mm.iter_of_event) if v is None)
+            memo["p"] = pred
+        return memo["p"]
+
     def fail(sig, **kw):
+        if known_region is not None and predicted() == m1.coverage():
+            # narrow: what was executed is exactly what the documented defect predicts; every further mismatch follows from it
+            sig = known_region
         if rw_shared and constructed and sig.startswith(("race:", "flow:", "final:")):
             sig = K_RW
             kw["read_modify_write_buffers"] = rw_shared
@@ -292,32 +322,11 @@ def check_case(rc, want_text=False):
         raise Violation(sig, d)
 
     cov0, cov1 = m0.coverage(), m1.coverage()
-    known_region = None
-    if constructed and ((lb, step) != (0, 1)):
-        known_region = K_LB
-    elif constructed and trip < S - 1:
-        known_region = K_SHORT
     if cov0 != cov1:
         missing, extra = _diff(cov0, cov1)
         d = dict(missing=_fmt_cov(missing), extra=_fmt_cov(extra))
         if known_region is not None:
-            # narrow: the deviation must be exactly what the documented defect predicts
-            want = sorted({v for (_s, v) in model_schedule(S, ub, step)})
-            try:
-                mm, _ = execute(ref, built, Terms(), forced=want)
-            except StepBudget:
-                raise Outside("step budget (model)")
-            per = {}
-            for e, v in zip(mm.events, mm.iter_of_event):
-                st_ = built.stage_tags.get(e.tag)
-                if st_ is not None and v is not None:
-                    per.setdefault((st_, v), []).append(e.cov_key())
-            pred = Counter()
-            for sv in model_schedule(S, ub, step):
-                pred.update(per.get(sv, []))
-            pred.update(e.cov_key() for e, v in zip(mm.events, mm.iter_of_event) if v is None)
-            if pred == cov1:
-                fail(known_region, **d)
+            pred = predicted()
             fail("coverage:differs from the sequential loop and from the documented short-loop/lb defect", **d,
                  predicted_minus_observed=_fmt_cov(pred - cov1), observed_minus_predicted=_fmt_cov(cov1 - pred))
         if has_scalar:
